@@ -35,18 +35,37 @@ def frame_checks(w, rep, site, Rd, xC, W, thrust=None, spec=None):
     g.update({c: False for c in pole_conditions(Rd)})     # heading taken from a quaternion: regular Euler band
     R = regular(Rd, g)
     rep.note("%s: %d degenerate-norm guards set to the regular branch" % (site, len(g)))
+
+    def vd(inst, A, B, what):
+        """General comparison first; when it is undecided and a specialisation of the inputs is available (zero feedback
+        error: the force is m a_t + trim zW with a free a_t), a difference found on that sub-family is a real difference."""
+        v, d = decide_mat(A, B)
+        if v == EQUAL:
+            return rep.ok("C14.frame", inst)
+        if v == DIFFERENT:
+            return rep.fail("C14.frame", inst, "%s: value numbers differ, %s" % (what, d), where=W, fact={"difference": d})
+        if spec:
+            from .c16 import subs_syms
+            As, Bs = closed(w, subs_syms(A, spec)), closed(w, subs_syms(B, spec))
+            # the remaining selection is the norm limit of the feed-forward term: both sides of it are reachable
+            joint = cm.vertcat(cm.reshape(As, As.r * As.c, 1), cm.reshape(Bs, Bs.r * Bs.c, 1))
+            for label, J in (branches(joint, limit=2) or [("-", joint)]):
+                k = As.r * As.c
+                v2, d2 = decide_mat(w.sl(J, 0, k), w.sl(J, k, 2 * k))
+                if v2 == DIFFERENT:
+                    return rep.fail("C14.frame", inst, "%s (already with zero feedback error, force = m a_t + trim zW, selection %s): %s" % (what, label, d2), where=W, fact={"difference": d2})
+        rep.incomplete("C14.frame", inst, "%s: cannot decide (different opaque building blocks), %s" % (what, d), where=W)
+
     with with_maxdeg(30):
-        verdict(rep, "C14.frame", "%s: R^T R = I on the regular branch" % site, cm.matmul(cm.transpose(R), R), eye(3), (), W, "set-point matrix is not orthonormal")
+        vd("%s: R^T R = I on the regular branch" % site, cm.matmul(cm.transpose(R), R), eye(3), "set-point matrix is not orthonormal")
         xB, yB, zB = (w.it.mat_get(R, (slice(0, 3), k)) for k in range(3))
-        verdict(rep, "C14.frame", "%s: xB = yB x zB (right-handed, columns in the order x, y, z)" % site, xB, cm.cross(yB, zB), (), W,
-                "frame is not right-handed / columns are not ordered [xB | yB | zB]")
+        vd("%s: xB = yB x zB (right-handed, columns in the order x, y, z)" % site, xB, cm.cross(yB, zB), "frame is not right-handed / columns are not ordered [xB | yB | zB]")
         if xC is not None:
-            verdict(rep, "C14.frame", "%s: yB . (cos psi, sin psi, 0) = 0 (body y perpendicular to the commanded heading)" % site, cm.dot(yB, xC), zeros(1, 1), (), W,
-                    "body y axis is not perpendicular to the heading direction")
+            vd("%s: yB . (cos psi, sin psi, 0) = 0 (body y perpendicular to the commanded heading)" % site, cm.dot(yB, xC), zeros(1, 1), "body y axis is not perpendicular to the heading direction")
             # xB has a non-negative component along the heading: xB . xC = |zB x xC| >= 0  (sign convention yB = zB x xC)
             n2 = cm.sumsqr(cm.cross(zB, xC)).s()
-            verdict(rep, "C14.frame", "%s: (xB . xC)^2 = |zB x xC|^2 and yB = +(zB x xC)/|zB x xC|" % site,
-                    cm.ew(yB, cm.scalar(cm.un("sqrt", n2)), cm.pmul), cm.cross(zB, xC), (), W, "yB is not the normalised zB x xC (cyclic order gives the right-handed frame facing the heading)")
+            vd("%s: (xB . xC)^2 = |zB x xC|^2 and yB = +(zB x xC)/|zB x xC|" % site, cm.ew(yB, cm.scalar(cm.un("sqrt", n2)), cm.pmul), cm.cross(zB, xC),
+               "yB is not the normalised zB x xC (cyclic order gives the right-handed frame facing the heading)")
         if thrust is not None:
             nT = regular(thrust, g)
             v = cm.ew(zB, nT, cm.pmul)
